@@ -70,12 +70,10 @@ func (e *End) Read(b []byte) (int, error) {
 		return 0, nil
 	}
 	var timer *time.Timer
-	var timerFor time.Time
 	defer func() {
 		if timer != nil {
 			timer.Stop()
 		}
-		e.parked = false
 	}()
 	for {
 		if e.closed {
@@ -113,25 +111,19 @@ func (e *End) Read(b []byte) (int, error) {
 				return 0, os.ErrDeadlineExceeded
 			}
 			if timer == nil {
-				timerFor = e.rdl
 				timer = time.AfterFunc(d, func() {
 					e.sh.mu.Lock()
 					e.sh.cond.Broadcast()
 					e.sh.mu.Unlock()
 				})
-			} else if !timerFor.Equal(e.rdl) {
-				timerFor = e.rdl
+			} else {
 				timer.Reset(d)
 			}
 		}
-		if !e.parked {
-			// tell observers once; waking the other waiters again on every turn of
-			// this loop makes two ends that are both parked in Read (a peer that
-			// never answers, a TLS pair) wake each other without end
-			e.parked = true
-			e.sh.cond.Broadcast()
-		}
+		e.parked = true
+		e.sh.cond.Broadcast()
 		e.sh.cond.Wait()
+		e.parked = false
 	}
 }
 
